@@ -7,6 +7,7 @@ import subprocess
 import time
 
 import z3
+from .logic import symbols_of
 
 CVC5 = "/usr/bin/cvc5"
 _WORK: list = []
@@ -94,6 +95,15 @@ def _cvc5_check(solver, budget_ms, mode="--full-saturate-quant"):
     return ans, (time.time() - t1) * 1000
 
 
+def _mentions_expr_theory(L, formulas):
+    """Do the hypotheses / goal themselves talk about expressions (den, ok, ...)?  The seeds retried below only matter for NRA."""
+    names = getattr(L.E, "_fn_names", None)
+    if names is None:
+        names = {v.name() for v in vars(L.E).values() if isinstance(v, z3.FuncDeclRef)}
+        L.E._fn_names = names
+    return any(symbols_of(f) & names for f in formulas)
+
+
 def prove(L, hyps, goal, budget_ms, use_cvc5=True, extra=(), find_models=False):
     """unsat of hyps & not goal.  z3 first (short budget), then cvc5 on the same SMT-LIB text, then z3 with the full budget.
     Returns (status in {'unsat','sat','unknown'}, backend, ms, z3 solver, reason)."""
@@ -102,7 +112,7 @@ def prove(L, hyps, goal, budget_ms, use_cvc5=True, extra=(), find_models=False):
     if st != "unknown":
         return st, "z3", ms, s, why
     total = ms
-    if getattr(L, "E", None) is not None:
+    if getattr(L, "E", None) is not None and _mentions_expr_theory(L, list(hyps) + [goal]):
         # nonlinear real arithmetic is sensitive to the solver's internal ordering: retry with other seeds before giving up
         for seed in (7, 23, 101):
             s2 = z3.Solver()
